@@ -130,6 +130,7 @@ MUTANTS = {
     'eret_keeps_cpsr': (OPS + 'eret.py', "                processor.registers.cpsr_write_by_instr(processor.registers.get_spsr(), 0b1111, True)\n", "                processor.registers.cpsr_write_by_instr(processor.registers.get_spsr(), 0b1110, True)\n", ['C12']),
     'vmsa_ap7_writable': (V, "            if memory_system_architecture() == MemArch.VMSA:\n                abort = iswrite\n", "            if memory_system_architecture() == MemArch.VMSA:\n                abort = False\n", ['C19']),
     'manager_domain_checks_permissions': (V, "        if check_domain:\n            check_permission = self.check_domain(", "        if check_domain:\n            check_permission = self.check_domain(tlbrecord_s1.domain, mva, tlbrecord_s1.level, iswrite) or True\n        if False:\n            check_permission = self.check_domain(", ['C19']),
+    'vmsa_ap1_user_allowed': (V, "        elif perms.ap == 0b001:\n            abort = not ispriv\n", "        elif perms.ap == 0b001:\n            abort = False\n", ['C19']),
     'keyerror_for_ap_100': (V, "        elif perms.ap == 0b100:\n            print('unpredictable')", "        elif perms.ap == 0b100:\n            abort = {}[perms.ap]", ['C18']),
     'stale_opcode_len_reuse': (V, "        elif self.registers.current_instr_set() == InstrSet.THUMB:\n            self.opcode_len = 2\n            self.opcode = self.mem_a_get(self.registers.pc_store_value(), self.opcode_len)",
                                "        elif self.registers.current_instr_set() == InstrSet.THUMB:\n            self.opcode_len = 2 if self.opcode_len != 1 else 4\n            self.opcode = self.mem_a_get(self.registers.pc_store_value(), 2)", []),
